@@ -87,6 +87,20 @@ func init() {
 		}
 		return "ok " + hxv(enc) + " " + hxv(nk)
 	}
+	// c18.namekey <serialized name key>: the key a client decodes from configuration; its serialization and
+	// the name key id the client's request carries
+	replayers["c18.namekey"] = func(c *Ctx, a []string) string {
+		k, err := type3.UnmarshalEncapKey(unhx(a[0]))
+		if err != nil {
+			return "err"
+		}
+		reseedRand(c.Seed, "c18.namekey")
+		nk, _, _, err := type3.VerifEncryptOriginTokenRequest(k, 1, make([]byte, 256), make([]byte, 49), "o")
+		if err != nil {
+			return "err-encrypt"
+		}
+		return "ok " + hxv(k.Marshal()) + " " + hxv(nk)
+	}
 }
 
 func runC18(c *Ctx) {
@@ -169,5 +183,17 @@ func runC18(c *Ctx) {
 		o = c.Run("c18.nameid", "1", "32", hx(enc[3:35]), "1", "1", hx(s))
 		c.Direct(o == "ok "+hxv(enc)+" "+hxv(sha256b(enc)), "type-3 name key id is not SHA-256 of the serialized name key", map[string]any{"impl": o})
 		c.Count("id:name")
+		// every HPKE suite the name key may announce: the id is over the key as it was published
+		for _, kdf := range []byte{1, 2, 3} {
+			for _, aead := range []byte{1, 2, 3} {
+				if !c.Thorough() && (int(kdf)*3+int(aead)+i)%3 != 0 {
+					continue
+				}
+				pub := append(append([]byte{byte(i), 0, 0x20}, enc[3:35]...), 0, kdf, 0, aead)
+				o = c.Run("c18.namekey", hx(pub))
+				c.Direct(o == "ok "+hxv(pub)+" "+hxv(sha256b(pub)), "type-3 name key id is not SHA-256 of the name key as serialized by its publisher", map[string]any{"key": hx(pub), "impl": o})
+				c.Count(fmt.Sprintf("id:name:kdf%d-aead%d", kdf, aead))
+			}
+		}
 	}
 }
